@@ -7,7 +7,7 @@ use crate::{
         aggregate::{self, Aggregate},
         AggregateColumn, Column, Expr, Identifier,
     },
-    privacy_unit_tracking::PupRelation,
+    privacy_unit_tracking::{privacy_unit::PrivacyUnit, PupRelation},
     relation::{Map, Reduce, Relation, Variant},
     Ready,
 };
@@ -382,7 +382,13 @@ impl Reduce {
         let (relation, dp_event) = reduces
             .iter()
             .map(|r| {
-                pup_input.clone().differentially_private_aggregates(
+                // A `DISTINCT` clause de-duplicates the input of `r`, so the aggregates are computed over this input
+                let pup_input = if r.input().schema() == self.input().schema() {
+                    Ok(pup_input.clone())
+                } else {
+                    PupRelation::try_from(r.input().clone())
+                }?;
+                pup_input.differentially_private_aggregates(
                     r.named_aggregates()
                         .into_iter()
                         .map(|(n, agg)| (n, agg.clone()))
@@ -492,6 +498,12 @@ impl Reduce {
                 .map(|c| c.clone())
                 .collect::<Vec<_>>();
             group_by.push(identifier);
+            // The values are de-duplicated per privacy unit, the privacy unit columns are kept for the next steps
+            for name in [PrivacyUnit::privacy_unit(), PrivacyUnit::privacy_unit_weight()] {
+                if self.input().schema().field(name).is_ok() {
+                    group_by.push(name.into());
+                }
+            }
 
             let first_aggs = group_by.clone().into_iter().map(|c| {
                 (
